@@ -23,6 +23,13 @@ def run(c, p):
         return ba[idx].unpack(), a
     if op == "window":
         return ba.sliding_window(c["w"]), a
+    if op == "window2":
+        first = ba.sliding_window(c["w0"])          # an earlier call with another window size must not influence a later one
+        return ba.sliding_window(c["w"]), a
+    if op == "after":
+        ba.sliding_window(c["w0"])
+        ba[pyint(c["i"])]
+        return ba.unpack(), a
     raise ValueError(op)
 
 
@@ -50,6 +57,12 @@ def sym(E, p, kf):
         c["idx"] = [E.int(f"i{j}", 0, n - 1) for j in range(m)]
     elif op == "window":
         c["w"] = E.choose("w", list(range(1, min(k, n) + 1)))
+    elif op == "window2":
+        c["w0"] = E.choose("w0", list(range(1, min(k, n) + 1)))
+        c["w"] = E.choose("w", list(range(1, min(k, n) + 1)))
+    elif op == "after":
+        c["w0"] = E.choose("w0", list(range(1, min(k, n) + 1)))
+        c["i"] = E.int("i", 0, n - 1)
     got = outcome(lambda: run(c, p))
     case = dict(p=p, c=c)
     if got["k"] != "tuple":
@@ -57,13 +70,13 @@ def sym(E, p, kf):
     res, after = got["items"]
     v64 = [z3.ZeroExt(64 - w, v) if w < 64 else v for v in vals]
     conds = [specs.obs_goal(after, dict(k="array", flat=vals, shape=[n], dtype=dt))]
-    if op == "unpack":
+    if op in ("unpack", "after"):
         conds.append(specs.obs_goal(res, dict(k="array", flat=v64, shape=[n], dtype="uint64")))
     elif op == "getint":
         conds.append(specs.eqv(res["val"], specs.select_chain(v64, c["i"])) if res["k"] == "scalar" else False)
     elif op == "getlist":
         conds.append(specs.obs_goal(res, dict(k="array", flat=[specs.select_chain(v64, i) for i in c["idx"]], shape=[len(c["idx"])], dtype="uint64")))
-    elif op == "window":
+    elif op in ("window", "window2"):
         ww = c["w"]
         exp = []
         for i in range(n - ww + 1):
@@ -80,7 +93,7 @@ def conc(case):
     got = outcome(lambda: run(c, p))
     vals, b, op = c["vals"], c["b"], p["op"]
     A = common.ref_array
-    if op == "unpack":
+    if op in ("unpack", "after"):
         res = A(vals, [len(vals)], "uint64")
     elif op == "getint":
         res = common.ref_scalar(vals[c["i"]], "uint64")
@@ -106,6 +119,9 @@ def jobs(tier, seed):
         out.append(dict(bs=[4, 8], nmax=9 if q else 17, op="unpack", dtype=dt))
         out.append(dict(bs=[4], nmax=17, op="window", dtype=dt, nmode="edges"))
     out.append(dict(bs=[8], nmax=9, op="getlist", dtype="uint64", m=2, aslist=True))
+    out.append(dict(bs=[16], nmax=6, op="window2", dtype="uint64", nmode="all"))
+    out.append(dict(bs=[8], nmax=10, op="window2", dtype="uint8", nmode="edges"))
+    out.append(dict(bs=[16], nmax=6, op="after", dtype="uint64", nmode="all"))
     if q:
         out.append(dict(bs=[2], nmax=33, op="window", dtype="uint64", nmode="edges"))
         out.append(dict(bs=[1], nmax=65, op="unpack", dtype="uint64", nmode="edges"))
